@@ -207,17 +207,7 @@ func (p *renderState) buildNode(t *Token) (res Node) {
 
 	case "Text":
 		text := new(Text)
-		t.Val = strings.Replace(t.Val, "{{", `--{{--`, -1)
-		t.Val = strings.Replace(t.Val, "}}", `--}}--`, -1)
-		t.Val = strings.Replace(t.Val, "--{{--", `{{"{{"}}`, -1)
-		t.Val = strings.Replace(t.Val, "--}}--", `{{"}}"}}`, -1)
-		// a single "{" directly before one of the quoted delimiters above would form a delimiter with its "{{"
-		t.Val = strings.Replace(t.Val, "{{{", `{{"{"}}{{`, -1)
-		if strings.HasSuffix(t.Val, "{") {
-			// a trailing "{" would form a delimiter with the "{" that may follow (an action or the next text)
-			t.Val = t.Val[:len(t.Val)-1] + `{{"{"}}`
-		}
-		text.Val = t.Val
+		text.Val = quoteDelimiters(t.Val)
 		return text
 
 	case "Code":
@@ -307,4 +297,20 @@ func (p *renderState) buildNode(t *Token) (res Node) {
 		log.Printf("%#v\n", t)
 		panic(errors.Errorf("Cannot parse Pug block %#v", t))
 	}
+}
+
+// quoteDelimiters makes literal text safe to be written into the template source: the template engine's
+// delimiters are replaced by actions printing them, text without braces is returned unchanged
+func quoteDelimiters(val string) string {
+	val = strings.Replace(val, "{{", `--{{--`, -1)
+	val = strings.Replace(val, "}}", `--}}--`, -1)
+	val = strings.Replace(val, "--{{--", `{{"{{"}}`, -1)
+	val = strings.Replace(val, "--}}--", `{{"}}"}}`, -1)
+	// a single "{" directly before one of the quoted delimiters above would form a delimiter with its "{{"
+	val = strings.Replace(val, "{{{", `{{"{"}}{{`, -1)
+	if strings.HasSuffix(val, "{") {
+		// a trailing "{" would form a delimiter with the "{" that may follow (an action or the next text)
+		val = val[:len(val)-1] + `{{"{"}}`
+	}
+	return val
 }
